@@ -24,7 +24,12 @@ type Tree struct {
 // (`sub/a.knut`, `../b.knut`). Within a file the directives keep their
 // relative order; include directives are placed at drawn positions.
 func SplitIntoTree(t *rapid.T, ds []ref.Directive, maxFiles int) Tree {
-	n := rapid.IntRange(1, maxFiles).Draw(t, "nFiles")
+	return SplitIntoTreeMin(t, ds, 1, maxFiles)
+}
+
+// SplitIntoTreeMin is SplitIntoTree with a lower bound on the number of files.
+func SplitIntoTreeMin(t *rapid.T, ds []ref.Directive, minFiles, maxFiles int) Tree {
+	n := rapid.IntRange(minFiles, maxFiles).Draw(t, "nFiles")
 	type file struct {
 		dir, name string
 		parent    int
@@ -51,7 +56,22 @@ func SplitIntoTree(t *rapid.T, ds []ref.Directive, maxFiles int) Tree {
 		default: // any existing directory (gives ../ paths)
 			dir = rapid.SampledFrom(dirs).Draw(t, "anyDir")
 		}
-		files[i] = &file{dir: dir, name: fmt.Sprintf("f%d.knut", i), parent: p, depth: files[p].depth + 1}
+		// file names are reused across directories (2022/q1.knut, 2023/q1.knut): the same relative include
+		// string then names different files
+		name := fmt.Sprintf("f%d.knut", i)
+		if rapid.IntRange(0, 1).Draw(t, "commonName") == 0 {
+			cand := rapid.SampledFrom([]string{"q1.knut", "index.knut", "prices.knut"}).Draw(t, "commonNameV")
+			free := true
+			for _, f := range files[:i] {
+				if f.dir == dir && f.name == cand {
+					free = false
+				}
+			}
+			if free && !(dir == "." && cand == "main.knut") {
+				name = cand
+			}
+		}
+		files[i] = &file{dir: dir, name: name, parent: p, depth: files[p].depth + 1}
 		files[p].children = append(files[p].children, i)
 		if files[i].depth > maxDepth {
 			maxDepth = files[i].depth
